@@ -101,7 +101,7 @@ class Compiler:
                     if isinstance(insn.target, InstructionPointer):
                         if state["link_base"]["promise"].settled:
                             # Bring the current address forward
-                            def closure(insn):
+                            def closure(insn, state):
                                 nonlocal data, addr
                                 old_addr = addr
                                 def fn():
@@ -124,7 +124,7 @@ class Compiler:
                                     addr += chunk.length()
                                 else:
                                     addr += len(chunk)
-                            closure(insn)
+                            closure(insn, state)
                         else:
                             # Set link base
                             self.set_link_address(insn.value, state)
